@@ -367,8 +367,23 @@ def purity_functions(d, ctx):
     else:
         call, a, k = deterministic.flag, (yc, K), dict(permutation_free=True,
                                                        minimum=d.choice([0, 0.1]))
-    ctx.describe(entry=name, D=D, N=N, F=F, K=K, lead=lead)
-    ctx.label(name.split(':')[0])
+    variant = d.choice(['as-is', 'as-is', 'as-is', 'real-valued', 'single-precision'])
+    if variant != 'as-is':
+        def conv(x):
+            if isinstance(x, np.ndarray) and np.iscomplexobj(x):
+                return np.ascontiguousarray(x.real) if variant == 'real-valued' \
+                    else x.astype(np.complex64)
+            if isinstance(x, np.ndarray) and x.dtype == np.float64 and \
+                    variant == 'single-precision':
+                return x.astype(np.float32)
+            if isinstance(x, tuple):
+                return tuple(conv(v) for v in x)
+            if isinstance(x, dict):
+                return {kk: conv(v) for kk, v in x.items()}
+            return x
+        a, k = conv(a), conv(k)
+    ctx.describe(entry=name, D=D, N=N, F=F, K=K, lead=lead, variant=variant)
+    ctx.label(name.split(':')[0], variant)
     c = pure_call(ctx, name, call, a, k, np_seed=seed)
     ctx.nontrivial(has_array(c))
 
